@@ -124,3 +124,603 @@ def _loop_nodes(cfg, head):
         for (p, _l) in n.preds:
             work.append(p)
     return (fwd & bwd)
+
+
+# --------------------------------------------------------------------------------------
+# normalised statement events
+
+def _const_locals(f):
+    """const-qualified locals with a constant initialiser: name -> int"""
+    from .expr import var_init
+    out = {}
+    for x in walk(f.body):
+        if x.get('kind') == 'VarDecl' and qtype(x).startswith('const '):
+            init = var_init(x)
+            if init is not None:
+                v = int_value(init)
+                if v is not None and not isinstance(v, str):
+                    out[x.get('name')] = v
+    return out
+
+
+def norm(e, consts, width=None):
+    """Nested-tuple normal form of an expression: constants folded, const locals substituted,
+    rotates recognised, commutative operands sorted, casts dropped."""
+    s = strip(e)
+    v = int_value(s)
+    if v is not None and not isinstance(v, str):
+        return v
+    k = s.get('kind')
+    if k == 'DeclRefExpr':
+        nm = access_path(s) or canon(s)
+        return consts[nm] if nm in consts else ('v', nm)
+    if k == 'MemberExpr':
+        return ('v', canon(s))
+    if k == 'ArraySubscriptExpr':
+        a, b = children(s)
+        return ('idx', norm(a, consts), norm(b, consts))
+    if k == 'UnaryOperator':
+        op = s.get('opcode')
+        if op == '*':
+            return ('deref', norm(children(s)[0], consts))
+        return (op, norm(children(s)[0], consts))
+    if k == 'BinaryOperator':
+        op = s.get('opcode')
+        a, b = children(s)
+        na, nb = norm(a, consts), norm(b, consts)
+        if op == '|':
+            # rotate: (X << a) | (X >> b)
+            for (l, r) in ((na, nb), (nb, na)):
+                if isinstance(l, tuple) and isinstance(r, tuple) and l[0] == '<<' and r[0] == '>>' and l[1] == r[1] \
+                        and isinstance(l[2], int) and isinstance(r[2], int):
+                    return ('rotl', l[1], l[2], r[2])
+        if op in ('+', '*', '^', '|', '&'):
+            x, y = sorted((na, nb), key=repr)
+            return (op, x, y)
+        if op in ('<<', '>>') and nb == 0:
+            return na
+        return (op, na, nb)
+    if k == 'ConditionalOperator':
+        return ('?:',) + tuple(norm(c, consts) for c in children(s))
+    if k == 'CallExpr':
+        return ('call', canon(children(s)[0])) + tuple(norm(c, consts) for c in children(s)[1:])
+    return ('?', k)
+
+
+def stmt_events(stmts, consts):
+    """Ordered events for a list of statements (expression statements and declarations with initialisers)."""
+    from .expr import var_init
+    out = []
+    for st in stmts:
+        k = st.get('kind')
+        if k == 'CompoundStmt':
+            out += stmt_events(children(st), consts)
+        elif k == 'DeclStmt':
+            for d in children(st):
+                if d.get('kind') == 'VarDecl':
+                    init = var_init(d)
+                    if init is not None:
+                        out.append(('set', d.get('name'), norm(init, consts), d.get('_line')))
+        elif k == 'BinaryOperator' and st.get('opcode') == '=':
+            l, r = children(st)
+            rs = strip(r)
+            if rs.get('kind') == 'BinaryOperator' and rs.get('opcode') == '=':     # k1 = k2 = 0
+                out += stmt_events([rs], consts)
+                out.append(('set', canon(l), norm(children(rs)[1], consts), st.get('_line')))
+            else:
+                out.append(('set', canon(l), norm(r, consts), st.get('_line')))
+        elif k == 'CompoundAssignOperator':
+            l, r = children(st)
+            out.append(('op', canon(l), st.get('opcode'), norm(r, consts), st.get('_line')))
+        elif k in ('BinaryOperator',) and st.get('opcode') == ',':
+            out += stmt_events(children(st), consts)
+    return out
+
+
+def V(n):
+    return ('v', n)
+
+
+def ROTL(x, a, w):
+    return ('rotl', V(x), a, w - a)
+
+
+def MULADD(x, m, c):
+    return ('+',) + tuple(sorted((('*',) + tuple(sorted((V(x), m), key=repr)), c), key=repr))
+
+
+def SHR(x, n):
+    return ('>>', V(x), n)
+
+
+def match_events(actual, expected):
+    """Compare event lists modulo consistent variable renaming.  Returns (ok, message)."""
+    binding = {}
+
+    def unify(e, a):
+        if isinstance(e, tuple) and e and e[0] == 'v' and isinstance(a, tuple) and a and a[0] == 'v':
+            if e[1] in binding:
+                return binding[e[1]] == a[1]
+            if a[1] in binding.values():
+                return False
+            binding[e[1]] = a[1]
+            return True
+        if isinstance(e, tuple) and isinstance(a, tuple):
+            if len(e) != len(a):
+                return False
+            if e and e[0] in ('+', '*', '^', '|', '&') and len(e) == 3:
+                # commutative: try both orders
+                save = dict(binding)
+                if e[0] == a[0] and unify(e[1], a[1]) and unify(e[2], a[2]):
+                    return True
+                binding.clear()
+                binding.update(save)
+                return e[0] == a[0] and unify(e[1], a[2]) and unify(e[2], a[1])
+            return all(unify(x, y) for x, y in zip(e, a))
+        return e == a
+    i = 0
+    for idx, exp in enumerate(expected):
+        if i >= len(actual):
+            return False, 'step %d (%s) is missing' % (idx + 1, _show(exp)), None
+        act = actual[i]
+        a_core = act[:-1]
+        tgt_e = V(exp[1])
+        if exp[0] != a_core[0] or not unify(tgt_e, V(a_core[1])) or \
+                (exp[0] == 'op' and (exp[2] != a_core[2] or not unify(exp[3], a_core[3]))) or \
+                (exp[0] == 'set' and not unify(exp[2], a_core[2])):
+            return False, 'step %d: expected %s, found %s' % (idx + 1, _show(exp), _show(a_core)), act[-1]
+        i += 1
+    if i != len(actual):
+        return False, 'unexpected extra step %s' % _show(actual[i][:-1]), actual[i][-1]
+    return True, 'matches (%d steps, variables %s)' % (len(expected), binding), None
+
+
+def _show(ev):
+    def h(x):
+        if isinstance(x, int):
+            return hex(x) if x > 9 else str(x)
+        if isinstance(x, tuple):
+            if x[0] == 'v':
+                return x[1]
+            return '(' + ' '.join(h(y) for y in x) + ')'
+        return str(x)
+    if ev[0] == 'op':
+        return '%s %s %s' % (ev[1], ev[2], h(ev[3]))
+    return '%s = %s' % (ev[1], h(ev[2]))
+
+
+# --------------------------------------------------------------------------------------
+# published parameter sets (reference algorithms)
+
+def murmur32_spec():
+    C1, C2 = 0xcc9e2d51, 0x1b873593
+    body = [('set', 'k', ('idx', V('blocks'), V('i'))), ('op', 'k', '*=', C1), ('set', 'k', ROTL('k', 15, 32)),
+            ('op', 'k', '*=', C2), ('op', 'h', '^=', V('k')), ('set', 'h', ROTL('h', 13, 32)),
+            ('set', 'h', MULADD('h', 5, 0xe6546b64))]
+    tailmix = [('op', 'k', '*=', C1), ('set', 'k', ROTL('k', 15, 32)), ('op', 'k', '*=', C2), ('op', 'h', '^=', V('k'))]
+    final = [('op', 'h', '^=', V('nbytes')), ('op', 'h', '^=', SHR('h', 16)), ('op', 'h', '*=', 0x85ebca6b),
+             ('op', 'h', '^=', SHR('h', 13)), ('op', 'h', '*=', 0xc2b2ae35), ('op', 'h', '^=', SHR('h', 16))]
+    return dict(block=4, word=4, body=body, tailmix={1: tailmix}, final=final, kvars={1: 'k'})
+
+
+def murmur128_spec():
+    C1, C2 = 0x87c37b91114253d5, 0x4cf5ad432745937f
+    body = [('set', 'k1', ('idx', V('blocks'), ('+', 0, ('*', 2, V('i'))))),
+            ('set', 'k2', ('idx', V('blocks'), ('+', 1, ('*', 2, V('i'))))),
+            ('op', 'k1', '*=', C1), ('set', 'k1', ROTL('k1', 31, 64)), ('op', 'k1', '*=', C2), ('op', 'h1', '^=', V('k1')),
+            ('set', 'h1', ROTL('h1', 27, 64)), ('op', 'h1', '+=', V('h2')), ('set', 'h1', MULADD('h1', 5, 0x52dce729)),
+            ('op', 'k2', '*=', C2), ('set', 'k2', ROTL('k2', 33, 64)), ('op', 'k2', '*=', C1), ('op', 'h2', '^=', V('k2')),
+            ('set', 'h2', ROTL('h2', 31, 64)), ('op', 'h2', '+=', V('h1')), ('set', 'h2', MULADD('h2', 5, 0x38495ab5))]
+    mix1 = [('op', 'k1', '*=', C1), ('set', 'k1', ROTL('k1', 31, 64)), ('op', 'k1', '*=', C2), ('op', 'h1', '^=', V('k1'))]
+    mix2 = [('op', 'k2', '*=', C2), ('set', 'k2', ROTL('k2', 33, 64)), ('op', 'k2', '*=', C1), ('op', 'h2', '^=', V('k2'))]
+
+    def fmix(h):
+        return [('op', h, '^=', SHR(h, 33)), ('op', h, '*=', 0xff51afd7ed558ccd), ('op', h, '^=', SHR(h, 33)),
+                ('op', h, '*=', 0xc4ceb9fe1a85ec53), ('op', h, '^=', SHR(h, 33))]
+    final = [('op', 'h1', '^=', V('nbytes')), ('op', 'h2', '^=', V('nbytes')), ('op', 'h1', '+=', V('h2')),
+             ('op', 'h2', '+=', V('h1'))] + fmix('h1') + fmix('h2') + \
+            [('op', 'h1', '+=', V('h2')), ('op', 'h2', '+=', V('h1'))]
+    return dict(block=16, word=8, body=body, tailmix={1: mix1, 9: mix2}, final=final, kvars={1: 'k1', 9: 'k2'})
+
+
+def _norm_body_index(ev):
+    """blocks[i*2+0] -> canonical index form used in the spec"""
+    return ev
+
+
+def rule_murmur(prog, rep, fname, spec, rid):
+    f = prog.need_func(fname)
+    consts = _const_locals(f)
+    ptrs, cnts = _data_params(f)
+    nb = cnts[0].get('name') if cnts else 'nbytes'
+    B = spec['block']
+    # --- exact-bytes framing: nblocks = n / B ; tail = data + nblocks*B ; loop i in [0, nblocks)
+    inits = {x.get('name'): x for x in walk(f.body) if x.get('kind') == 'VarDecl'}
+    from .expr import var_init
+
+    def init_norm(name):
+        d = inits.get(name)
+        return norm(var_init(d), consts) if d is not None and var_init(d) is not None else None
+    loops = [x for x in walk(f.body) if x.get('kind') == 'ForStmt']
+    switches = [x for x in walk(f.body) if x.get('kind') == 'SwitchStmt']
+    rep.broken_if(len(loops) != 1 or len(switches) != 1, '%s: expected one block loop and one tail switch' % fname)
+    if len(loops) != 1 or len(switches) != 1:
+        return
+    loop, sw = loops[0], switches[0]
+    cond = loop['inner'][2]
+    cvar = None
+    c = strip(cond) if cond else {}
+    if c.get('kind') == 'BinaryOperator' and c.get('opcode') == '<':
+        cvar = access_path(children(c)[1])
+        ivar = access_path(children(c)[0])
+    checks = []
+    nbl = init_norm(cvar) if cvar else None
+    checks.append(('block count', nbl == ('/', V(nb), B), 'number of whole blocks is %s, expected %s / %d' % (nbl, nb, B)))
+    # tail pointer
+    tailvar = None
+    for x in walk(sw):
+        if x.get('kind') == 'ArraySubscriptExpr':
+            tailvar = access_path(children(x)[0])
+            break
+    tl = init_norm(tailvar) if tailvar else None
+    want_tail = ('+',) + tuple(sorted((V(ptrs[0].get('name')), ('*',) + tuple(sorted((V(cvar), B), key=repr))), key=repr)) if cvar else None
+    checks.append(('tail pointer', tl == want_tail, 'tail starts at %s, expected data + %s*%d' % (tl, cvar, B)))
+    swc = norm(children(sw)[0], consts)
+    checks.append(('tail selector', swc == ('&',) + tuple(sorted((V(nb), B - 1), key=repr)),
+                   'tail switch selects on %s, expected %s & %d' % (swc, nb, B - 1)))
+    for (what, ok, msg) in checks:
+        rep.instance(rid)
+        rep.oblige(rid, ok, {'function': fname, 'check': what})
+        if not ok:
+            rep.violation(rid, f, f.line, 'frame:%s' % what, '%s: %s - the hash would not cover exactly the given bytes' % (fname, msg))
+    # --- block loop body
+    body = loop['inner'][4]
+    ev = stmt_events([body], consts)
+    # normalise blocks[i] / blocks[i*2+0]
+    ev2 = []
+    for e in ev:
+        if e[0] == 'set' and isinstance(e[2], tuple) and e[2][0] == 'idx':
+            idx = e[2][2]
+            if B == 16:
+                # i*2+0 / i*2+1 -> ('+', c, ('*', 2, i))
+                if isinstance(idx, tuple) and idx[0] == '*':
+                    idx = ('+', 0, idx)
+            e = (e[0], e[1], ('idx', e[2][1], idx), e[3])
+        ev2.append(e)
+    rep.instance(rid)
+    ok, msg, line = match_events(ev2, [tuple(x) for x in spec['body']])
+    rep.oblige(rid, ok, {'function': fname, 'phase': 'block loop', 'result': msg[:200]})
+    if not ok:
+        rep.violation(rid, f, line or loop.get('_line'), 'body', '%s block loop differs from the published algorithm: %s' % (fname, msg))
+    # --- tail switch: byte law + fall-through + mixing
+    cases = []
+    cur = None
+    body_sw = children(sw)[-1]
+
+    def collect(st, acc):
+        k = st.get('kind')
+        if k == 'CaseStmt':
+            ch = children(st)
+            acc.append([int_value(ch[0]), [], st.get('_line')])
+            collect(ch[-1], acc)
+        elif k == 'DefaultStmt':
+            acc.append(['default', [], st.get('_line')])
+            collect(children(st)[-1], acc)
+        elif k == 'CompoundStmt':
+            for c2 in children(st):
+                collect(c2, acc)
+        else:
+            if acc:
+                acc[-1][1].append(st)
+    collect(body_sw, cases)
+    vals = [c0[0] for c0 in cases]
+    rep.instance(rid)
+    ok = vals == list(range(B - 1, 0, -1))
+    rep.oblige(rid, ok, {'function': fname, 'tail_cases': vals})
+    if not ok:
+        rep.violation(rid, f, sw.get('_line'), 'tail-cases', '%s: tail cases are %s, expected every residue %d..1 in descending order '
+                      '(fall-through)' % (fname, vals, B - 1))
+    W = spec['word']
+    for (val, stmts, line) in cases:
+        if not isinstance(val, int):
+            continue
+        rep.instance(rid)
+        evs = stmt_events(stmts, consts)
+        has_break = any(x.get('kind') == 'BreakStmt' for s0 in stmts for x in walk(s0))
+        kv = spec['kvars'][max(k0 for k0 in spec['kvars'] if k0 <= val)]
+        shift = 8 * ((val - 1) % W)
+        byte = ('idx', V(tailvar), val - 1)
+        want = byte if shift == 0 else ('<<', byte, shift)
+        ok = bool(evs) and evs[0][0] == 'op' and evs[0][2] == '^=' and evs[0][3] == want and not (has_break and val != 1)
+        mixes = spec['tailmix'].get(val)
+        msg = ''
+        if ok and mixes:
+            ok2, msg, _l = match_events(evs[1:], [tuple(x) for x in mixes])
+            ok = ok2
+        elif ok and len(evs) != 1:
+            ok, msg = False, 'unexpected extra statements'
+        rep.oblige(rid, ok, {'function': fname, 'case': val, 'first': _show(evs[0][:-1]) if evs else None})
+        if not ok:
+            rep.violation(rid, f, line, 'tail-case-%d' % val,
+                          '%s tail case %d: expected `k ^= tail[%d] << %d`%s, found %s %s'
+                          % (fname, val, val - 1, shift, ' followed by the tail mix' if mixes else '',
+                             [_show(e[:-1]) for e in evs][:3], msg))
+    # --- finaliser: statements after the switch
+    top = children(f.body)
+    after = []
+    seen = False
+    for st in top:
+        if st is sw:
+            seen = True
+            continue
+        if seen:
+            after.append(st)
+    evf = [e for e in stmt_events(after, consts)]
+    # the 128-bit variant stores the result into retbuf: strip those
+    core = [e for e in evf if not (e[0] == 'set' and isinstance(e[1], str) and '[' in e[1])]
+    stores = [e for e in evf if e[0] == 'set' and isinstance(e[1], str) and '[' in e[1]]
+    rep.instance(rid)
+    ok, msg, line = match_events(core, [tuple(x) for x in spec['final']])
+    rep.oblige(rid, ok, {'function': fname, 'phase': 'finaliser', 'result': msg[:200]})
+    if not ok:
+        rep.violation(rid, f, line or f.line, 'final', '%s finalisation differs from the published algorithm: %s' % (fname, msg))
+    # seed 0
+    hv = [e for e in stmt_events([s0 for s0 in top if s0 is not sw and s0 is not loop and s0 not in after], consts)
+          if e[0] == 'set' and e[1] in ('h', 'h1', 'h2')]
+    rep.instance(rid)
+    ok = bool(hv) and all(e[2] == 0 for e in hv)
+    rep.oblige(rid, ok, {'function': fname, 'seed': [e[2] for e in hv]})
+    if not ok:
+        rep.violation(rid, f, f.line, 'seed', '%s: the hash state must start at seed 0' % fname)
+    if B == 16:
+        rep.instance(rid)
+        ok = [(_show(e[:-1])) for e in stores]
+        good = len(stores) == 2 and stores[0][2] == V('h1') and stores[1][2] == V('h2') and '[0]' in stores[0][1] and '[1]' in stores[1][1]
+        rep.oblige(rid, good, {'function': fname, 'result_stores': ok})
+        if not good:
+            rep.violation(rid, f, f.line, 'result', '%s: result words must be stored as [0]=h1, [1]=h2, found %s' % (fname, ok))
+
+
+def rule_fnv(prog, rep, fname, basis, prime, rid):
+    f = prog.need_func(fname)
+    consts = _const_locals(f)
+    loops = [x for x in walk(f.body) if x.get('kind') == 'ForStmt']
+    rep.broken_if(len(loops) != 1, '%s: expected one scan loop' % fname)
+    if len(loops) != 1:
+        return
+    from .expr import var_init
+    hdecl = [x for x in walk(f.body) if x.get('kind') == 'VarDecl' and var_init(x) is not None and int_value(var_init(x)) == basis]
+    rep.instance(rid)
+    rep.oblige(rid, bool(hdecl), {'function': fname, 'offset_basis': hex(basis)})
+    if not hdecl:
+        rep.violation(rid, f, f.line, 'basis', '%s: FNV offset basis %s not found as the initial hash value' % (fname, hex(basis)))
+        return
+    h = hdecl[0].get('name')
+    ev = stmt_events([loops[0]['inner'][4]], consts)
+    # linear form of the multiply step: h += (h<<a)+... or h *= prime
+    rep.instance(rid)
+    ok = False
+    msg = ''
+    if len(ev) == 2 and ev[0][1] == h and ev[1][1] == h:
+        coef = _linear_coef(ev[0], h)
+        second = ev[1]
+        ok = coef == prime and second[0] == 'op' and second[2] == '^=' and second[3] == ('deref', V('dp')) or \
+            (coef == prime and second[0] == 'op' and second[2] == '^=' and isinstance(second[3], tuple) and second[3][0] in ('deref', 'idx'))
+        msg = 'multiplier %s, then %s' % (hex(coef) if coef else coef, _show(second[:-1]))
+    else:
+        msg = 'loop body has %d statements: %s' % (len(ev), [_show(e[:-1]) for e in ev][:3])
+    rep.oblige(rid, ok, {'function': fname, 'loop_body': msg, 'expected': 'h = h * %s; h ^= byte  (FNV-1 order)' % hex(prime)})
+    if not ok:
+        rep.violation(rid, f, loops[0].get('_line'), 'fnv-step', '%s: each byte must be folded as h = h * %s then h ^= byte (FNV-1); found %s'
+                      % (fname, hex(prime), msg))
+
+
+def _linear_coef(ev, h):
+    """coefficient c such that the statement computes h = c*h (mod 2^w); None if not of that form"""
+    def coef(x):
+        if x == V(h):
+            return 1
+        if isinstance(x, tuple) and x[0] == '<<' and x[1] == V(h) and isinstance(x[2], int):
+            return 1 << x[2]
+        if isinstance(x, tuple) and x[0] == '+' and len(x) == 3:
+            a, b = coef(x[1]), coef(x[2])
+            return None if a is None or b is None else a + b
+        if isinstance(x, tuple) and x[0] == '*' and len(x) == 3:
+            for (p, q) in ((x[1], x[2]), (x[2], x[1])):
+                if isinstance(p, int) and coef(q) is not None:
+                    return p * coef(q)
+        return None
+    if ev[0] == 'op' and ev[2] == '*=' and isinstance(ev[3], int):
+        return ev[3]
+    if ev[0] == 'op' and ev[2] == '+=':
+        c = coef(ev[3])
+        return None if c is None else 1 + c
+    if ev[0] == 'set':
+        return coef(ev[2])
+    return None
+
+
+# --------------------------------------------------------------------------------------
+# MD5 (RFC 1321): initial state, the 64 steps of MD5Transform, the four round functions
+
+def rule_md5(prog, rep, rid='H5-md5'):
+    import math
+    rep.rule(rid, 'MD5: initial state, the four round functions (truth tables), and all 64 steps (register rotation, message word, '
+                  'shift amount, sine-derived constant) agree with RFC 1321')
+    u = prog.unit('src/internal/md5/md5c.c')
+    finit = prog.need_func('MD5Init')
+    ftr = prog.need_func('MD5Transform', 'src/internal/md5/md5c.c')
+    want_init = [0x67452301, 0xefcdab89, 0x98badcfe, 0x10325476]
+    got = {}
+    for x in walk(finit.body):
+        if x.get('kind') == 'BinaryOperator' and x.get('opcode') == '=':
+            l = strip(children(x)[0])
+            if l.get('kind') == 'ArraySubscriptExpr' and canon(children(l)[0]).endswith('->state'):
+                got[int_value(children(l)[1])] = int_value(children(x)[1])
+    for i, v in enumerate(want_init):
+        rep.instance(rid)
+        ok = got.get(i) == v
+        rep.oblige(rid, ok, {'state': i, 'value': hex(got.get(i) or 0)} if i == 0 else None)
+        if not ok:
+            rep.violation(rid, finit, finit.line, 'state[%d]' % i, 'MD5 initial state[%d] is %s, RFC 1321 requires %s'
+                          % (i, hex(got.get(i) or 0), hex(v)))
+    # steps: compound statements produced by the FF/GG/HH/II macros
+    steps = []
+    for st in children(ftr.body):
+        if st.get('kind') == 'CompoundStmt' and st.get('_macro') in ('FF', 'GG', 'HH', 'II'):
+            steps.append(st)
+    rep.instance(rid)
+    rep.oblige(rid, len(steps) == 64, {'steps_found': len(steps)})
+    if len(steps) != 64:
+        rep.violation(rid, ftr, ftr.line, 'steps', 'MD5Transform has %d round steps, expected 64' % len(steps))
+        return
+    regs0 = None
+    order = ['a', 'd', 'c', 'b']
+    SH = [[7, 12, 17, 22], [5, 9, 14, 20], [4, 11, 16, 23], [6, 10, 15, 21]]
+    funcs = {}
+    for i, st in enumerate(steps):
+        rep.instance(rid)
+        ev = stmt_events([st], {})
+        ok = False
+        why = ''
+        r = i // 16
+        kexp = [i, (1 + 5 * i) % 16, (5 + 3 * i) % 16, (7 * i) % 16][r]
+        sexp = SH[r][i % 4]
+        texp = int(abs(math.sin(i + 1)) * 4294967296) & 0xFFFFFFFF
+        if len(ev) == 3 and ev[0][0] == 'op' and ev[0][2] == '+=' and ev[1][0] == 'set' and ev[2][0] == 'op' and ev[2][2] == '+=':
+            a = ev[0][1]
+            # collect the addends of the first statement
+            adds = []
+
+            def flat(x):
+                if isinstance(x, tuple) and x[0] == '+':
+                    flat(x[1])
+                    flat(x[2])
+                else:
+                    adds.append(x)
+            flat(ev[0][3])
+            consts_ = [x for x in adds if isinstance(x, int)]
+            words = [x for x in adds if isinstance(x, tuple) and x[0] == 'idx']
+            fn = [x for x in adds if not isinstance(x, int) and not (isinstance(x, tuple) and x[0] == 'idx')]
+            rot = ev[1][2]
+            bvar = ev[2][3]
+            if regs0 is None:
+                regs0 = a
+            want_a = order[i % 4]
+            ok = (a == want_a and len(consts_) == 1 and consts_[0] == texp and len(words) == 1 and words[0][2] == kexp
+                  and isinstance(rot, tuple) and rot[0] == 'rotl' and rot[1] == V(a) and rot[2] == sexp and rot[3] == 32 - sexp
+                  and bvar == V(order[(i % 4 + 3) % 4]) and len(fn) == 1)
+            why = 'register %s (want %s), constant %s (want %s), word x[%s] (want x[%d]), shift %s (want %d), added %s' % (
+                a, want_a, hex(consts_[0]) if consts_ else None, hex(texp), words[0][2] if words else None, kexp,
+                rot[2] if isinstance(rot, tuple) and len(rot) > 2 else rot, sexp, bvar)
+            if len(fn) == 1:
+                funcs.setdefault(st.get('_macro'), fn[0])
+        rep.oblige(rid, ok, {'step': i + 1, 'detail': why} if i in (0, 16, 32, 48, 63) else None)
+        if not ok:
+            rep.violation(rid, ftr, st.get('_line'), 'step-%d' % (i + 1), 'MD5 step %d differs from RFC 1321: %s' % (i + 1, why))
+    # round functions by truth table on bits (b, c, d of step 1 ordering: F(b,c,d))
+    truth = {'FF': lambda x, y, z: (x & y) | ((~x) & z), 'GG': lambda x, y, z: (x & z) | (y & (~z)),
+             'HH': lambda x, y, z: x ^ y ^ z, 'II': lambda x, y, z: y ^ (x | (~z))}
+    first = {m: next(i for i, st in enumerate(steps) if st.get('_macro') == m) for m in funcs}
+    for m, expr in funcs.items():
+        rep.instance(rid)
+        i = first[m]
+        x_, y_, z_ = order[(i % 4 + 3) % 4], order[(i % 4 + 2) % 4], order[(i % 4 + 1) % 4]
+        ok = True
+        for bits in range(8):
+            env = {x_: (bits >> 2) & 1, y_: (bits >> 1) & 1, z_: bits & 1}
+            got_v = _eval_norm(expr, env)
+            if got_v is None or (got_v & 1) != (truth[m](env[x_], env[y_], env[z_]) & 1):
+                ok = False
+                break
+        rep.oblige(rid, ok, {'round_function': m, 'expression': _show(('set', m, expr))[:80]})
+        if not ok:
+            rep.violation(rid, ftr, ftr.line, 'roundfn-%s' % m, 'MD5 round function of %s does not have the RFC 1321 truth table' % m)
+    rep.instance(rid)
+    rep.oblige(rid, set(funcs) == {'FF', 'GG', 'HH', 'II'}, {'round_macros': sorted(funcs)})
+
+
+def _eval_norm(x, env):
+    if isinstance(x, int):
+        return x
+    if isinstance(x, tuple):
+        if x[0] == 'v':
+            return env.get(x[1])
+        if x[0] == '~':
+            a = _eval_norm(x[1], env)
+            return None if a is None else ~a
+        if x[0] in ('&', '|', '^') and len(x) == 3:
+            a, b = _eval_norm(x[1], env), _eval_norm(x[2], env)
+            if a is None or b is None:
+                return None
+            return {'&': a & b, '|': a | b, '^': a ^ b}[x[0]]
+    return None
+
+
+# --------------------------------------------------------------------------------------
+# H1: data-oblivious termination ; H6: consumers
+
+def rule_h1(prog, rep, rid='H1'):
+    rep.rule(rid, 'no loop condition or early exit of a hash function depends on a byte of the data (the result covers all given bytes)')
+    for f in sorted(prog.funcs_in(HASH_UNIT), key=lambda x: x.line or 0):
+        ptrs, cnts = _data_params(f)
+        if not ptrs or not cnts or f.name.endswith('_file'):
+            continue
+        rd = ReachingDefs(f)
+        pn = [p.get('name') for p in ptrs if 'void' in qtype(p) or 'char' in qtype(p)]
+        rep.instance(rid)
+        bad = None
+        for n in f.cfg.nodes:
+            if n.kind != 'cond' or not isinstance(n.ast, dict) or n.id not in f.cfg.reachable:
+                continue
+            for x in walk(n.ast):
+                b = None
+                if x.get('kind') == 'UnaryOperator' and x.get('opcode') == '*':
+                    b = children(x)[0]
+                elif x.get('kind') == 'ArraySubscriptExpr':
+                    b = children(x)[0]
+                if b is not None and _derives_from(rd, n.id, b, pn):
+                    bad = (n, x)
+                    break
+            if bad:
+                break
+        rep.oblige(rid, bad is None, {'function': f.name})
+        if bad:
+            n, x = bad
+            rep.violation(rid, f, x.get('_line'), 'cond:%s' % canon(x)[:30],
+                          'the branch condition %s reads a data byte (%s): some content ends the scan early, so the result does not '
+                          'depend on all given bytes' % (canon(n.ast)[:60], canon(x)[:30]))
+
+
+def rule_h6(prog, rep, rid='H6'):
+    rep.rule(rid, 'the containers derive slots from qhashmurmur3_32 % size and the long-key digest from qhashmd5')
+    sites = []
+    for rel in ('src/containers/qhasharr.c', 'src/containers/qhashtbl.c'):
+        for f in prog.funcs_in(rel):
+            for x in walk(f.body):
+                nm = prog.callee_name(x) if x.get('kind') == 'CallExpr' else None
+                tgt = prog.funcs.get(nm) if nm else None
+                if tgt is not None and tgt.unit.rel == HASH_UNIT:
+                    sites.append((f, x, nm))
+    for (f, x, nm) in sites:
+        rep.instance(rid)
+        ok = nm in ('qhashmurmur3_32', 'qhashmd5')
+        rep.oblige(rid, ok, {'function': f.name, 'hash': nm, 'line': x.get('_line')})
+        if not ok:
+            rep.violation(rid, f, x.get('_line'), 'hash:%s' % nm, '%s uses %s(): stored images / other operations use qhashmurmur3_32 '
+                          'for slots and qhashmd5 for key digests' % (f.name, nm))
+
+
+def rule_c18(prog, rep):
+    prog.unit(HASH_UNIT)
+    rule_h1(prog, rep)
+    rule_h2(prog, rep)
+    rep.rule('H3-m32', 'MurmurHash3 x86_32: block framing, loop body, tail byte law, tail mix, finaliser, seed 0 equal the published algorithm')
+    rule_murmur(prog, rep, 'qhashmurmur3_32', murmur32_spec(), 'H3-m32')
+    rep.rule('H3-m128', 'MurmurHash3 x64_128: block framing, loop body, tail byte law, tail mixes, finaliser, seed 0, result order')
+    rule_murmur(prog, rep, 'qhashmurmur3_128', murmur128_spec(), 'H3-m128')
+    rep.rule('H4-fnv', 'FNV-1: offset basis, prime (from the shift-add linear form or the literal), multiply-then-xor order')
+    rule_fnv(prog, rep, 'qhashfnv1_32', 0x811C9DC5, 0x01000193, 'H4-fnv')
+    rule_fnv(prog, rep, 'qhashfnv1_64', 0xCBF29CE484222325, 0x100000001B3, 'H4-fnv')
+    rule_md5(prog, rep)
+    rule_h6(prog, rep)
